@@ -61,7 +61,7 @@ def check(prop, tier):
                 fails.append("identity")
             if not close(oc["_rt"], v):
                 fails.append("round_trip")
-            if not close(oc["_via"], Fraction(oc["_direct"])):
+            if not isinstance(oc["_direct"], (int, float)) or not close(oc["_via"], Fraction(oc["_direct"])):
                 fails.append("path_independence")
         if fails:
             bad += 1
